@@ -81,6 +81,25 @@ theorem addAt_mem {α : Type} : ∀ (i : Nat) (cols : List (List α)) (ws : List
       · exact Or.inr h
   | _ + 1, [], _, c, hc, _, _ => by simp [addAt] at hc
 
+theorem addAt_height {α : Type} (H : Nat) : ∀ (i : Nat) (cols : List (List α)) (ws : List α),
+    (∀ c ∈ cols, c.length ≤ H) → ∀ c ∈ addAt i cols ws, c.length ≤ H + 1
+  | 0, c0 :: cs, w :: ws, h, c, hc => by
+    simp only [addAt, List.mem_cons] at hc
+    rcases hc with rfl | hc
+    · have := h c0 (by simp); simp; omega
+    · exact addAt_height H 0 cs ws (fun c h' => h c (by simp [h'])) c hc
+  | 0, cs, [], h, c, hc => by
+    have : addAt 0 cs ([] : List α) = cs := by cases cs <;> simp [addAt]
+    rw [this] at hc
+    have := h c hc; omega
+  | 0, [], _ :: _, _, c, hc => by simp [addAt] at hc
+  | i + 1, c0 :: cs, ws, h, c, hc => by
+    simp only [addAt, List.mem_cons] at hc
+    rcases hc with hc | hc
+    · subst hc; have := h c (by simp); omega
+    · exact addAt_height H i cs ws (fun c h' => h c (by simp [h'])) c hc
+  | _ + 1, [], _, _, c, hc => by simp [addAt] at hc
+
 theorem colsVal_addAt : ∀ (i : Nat) (cols : List (List Bool)) (ws : List Bool),
     i + ws.length ≤ cols.length → colsVal (addAt i cols ws) = colsVal cols + 2 ^ i * toNat ws
   | 0, c :: cs, w :: ws, h => by
@@ -153,10 +172,11 @@ theorem wlPP_spec {inp : List Bool} (b : List Nat) :
     BndC s cols → i + as.length + b.length ≤ cols.length + 1 →
     Spec inp s (wlPP b as i cols) (fun r s' => BndC s' r ∧ r.length = cols.length ∧
       colsVal (colsBV s' inp r) = colsVal (colsBV s inp cols) +
-        2 ^ i * (toNat (busVal s inp as) * toNat (busVal s inp b)))
+        2 ^ i * (toNat (busVal s inp as) * toNat (busVal s inp b)) ∧
+      ∀ H, (∀ c ∈ cols, c.length ≤ H) → ∀ c ∈ r, c.length ≤ H + as.length)
   | [], i, cols, s, hwf, _, _, hc, _ => by
     simp only [wlPP]
-    exact Spec.pure hwf ⟨hc, rfl, by simp⟩
+    exact Spec.pure hwf ⟨hc, rfl, by simp, fun H h c hc' => by have := h c hc'; simpa using this⟩
   | ai :: as, i, cols, s, hwf, hb, ha, hc, hl => by
     simp only [wlPP]
     refine Spec.bind (wlRow_spec ai b hwf hb ha.head) ?_
@@ -164,8 +184,12 @@ theorem wlPP_spec {inp : List Bool} (b : List Nat) :
     have hfit : i + row.length ≤ cols.length := by simp at hl; omega
     refine (wlPP_spec b as (i + 1) (addAt i cols row) e1.wf (hb.mono e1) (ha.tail.mono e1)
       ((hc.mono e1).addAt hrb i) (by rw [addAt_length i cols row hfit]; simp at hl; omega)).mono ?_
-    intro r s2 _ ⟨hr, hrl2, hrv2⟩
-    refine ⟨hr, by rw [hrl2, addAt_length i cols row hfit], ?_⟩
+    intro r s2 _ ⟨hr, hrl2, hrv2, hrh⟩
+    have hheight : ∀ H, (∀ c ∈ cols, c.length ≤ H) → ∀ c ∈ r, c.length ≤ H + (ai :: as).length := by
+      intro H hH c hc'
+      have := hrh (H + 1) (addAt_height H i cols row hH) c hc'
+      simp only [List.length_cons]; omega
+    refine ⟨hr, by rw [hrl2, addAt_length i cols row hfit], ?_, hheight⟩
     rw [hrv2, colsBV_addAt, colsVal_addAt _ _ _ (by simp [colsBV, hrl]; simp at hl; omega), colsBV_ext e1 hc, hrv,
       toNat_map_and', busVal_ext e1 hb, busVal_ext e1 ha.tail]
     simp only [busVal_cons, toNat_cons, Nat.pow_succ]
@@ -390,13 +414,17 @@ theorem wallace_spec {s : St} {inp : List Bool} (hwf : WF s inp) {a b : List Nat
     intro c hc; rw [List.mem_replicate] at hc; rw [hc.2]; exact Bnd.nil s2
   refine Spec.bind (wlPP_spec (b'.take nr) (a'.take nr) 0 (List.replicate (2 * nr) []) e2.wf (hb'b.take nr)
     ((ha'b.mono e2).take nr) hc0 (by rw [hla, hlb]; simp; omega)) ?_
-  intro cols s3 e3 ⟨hcb, hcl, hcv⟩
+  intro cols s3 e3 ⟨hcb, hcl, hcv, hch⟩
   have hc0v : colsVal (colsBV s2 inp (List.replicate (2 * nr) [])) = 0 := by
     simp [colsBV, colsVal_replicate_nil]
   rw [hc0v, hAv, hBv] at hcv
   simp only [List.length_replicate] at hcl
   have hmax : maxH cols ≤ (2 * nr + 8) + 2 := by
-    sorry
+    rw [maxH_le_iff]
+    intro c hc
+    have := hch 0 (by intro c hc; rw [List.mem_replicate] at hc; rw [hc.2]; simp) c hc
+    rw [hla] at this
+    omega
   refine Spec.bind (wlLoop_spec (2 * nr + 8) cols e3.wf hcb hmax) ?_
   intro cols1 s4 e4 ⟨hc1b, hc1l, hc1m, hc1v⟩
   rw [hcl] at hc1l hc1v
